@@ -67,7 +67,10 @@ FORWARDING = {"emplace_front", "emplace_back", "emplace", "emplace_after", "empl
 BOUNDARY_VIRTUALS = {"tulz::Runnable::run"}
 # contract conditions: id -> description (the Lean side lists the excluded ids)
 COND_OBSERVER_INVALID = 1
-COND_TEXT = {COND_OBSERVER_INVALID: "!observer->isValid()  (an observer was invalidated)"}
+COND_REMOVED_DURING_NOTIFY = 2
+COND_TEXT = {COND_OBSERVER_INVALID: "!observer->isValid()  (an observer was invalidated)",
+             COND_REMOVED_DURING_NOTIFY: "!m_removedObservers.empty()  (an observer was removed while a notification round was in progress: "
+                                         "needs an invalidated observer or a callback that unsubscribes)"}
 
 
 class TranslateError(Exception):
@@ -164,6 +167,9 @@ class Ast:
     def _annot(self, n, parent):
         if not isinstance(n, dict):
             return
+        if not n.get("kind", "").endswith("Decl"):
+            # statements and expressions are transparent for the declaration hierarchy
+            pass
         here = None
         if "loc" in n:
             here = self._loc(n["loc"]) or here
@@ -179,8 +185,9 @@ class Ast:
                 self.by_id[n["id"]] = n
             if parent is not None:
                 self.parent[n["id"]] = parent
+        nxt = n if n.get("kind", "").endswith("Decl") and "id" in n else parent
         for c in n.get("inner", []):
-            self._annot(c, n)
+            self._annot(c, nxt)
 
     def rel(self, path):
         if not path:
@@ -274,7 +281,12 @@ def desugared(n):
 
 SELF = ("self",)
 UNKNOWN = ("unknown",)
-LOCAL = ("local",)          # an object with automatic storage (local variable, temporary, by-value parameter)
+LOCAL = ("local", 0)        # an object with automatic storage (local variable, temporary, by-value parameter);
+                            # ("local", k), k > 0: a local of class type with identity (its reference members are tracked)
+
+
+def is_local(o):
+    return base_of(o)[0] == "local"
 
 
 def base_of(o):
@@ -330,8 +342,12 @@ class LV:
 class Ctx:
     """one activation (function or lambda body)"""
 
+    count = 0
+
     def __init__(self, this, env, fn_node, init_obj=None):
         self.this, self.env, self.fn, self.init_obj = this, env, fn_node, init_obj
+        Ctx.count += 1
+        self.serial = Ctx.count
 
 
 class Terminated(Exception):
@@ -357,6 +373,9 @@ class Interp:
         self.scope_depth = 0
         self.member_types = {}
         self.ctor_objs = []     # objects under construction (innermost last)
+        self.local_bindings = {}  # (local object, member name) -> LV a reference / pointer member was initialised with
+        self.local_n = 0
+        self.cleanups = []      # (scope depth, destructor definition, object): destructors of automatic objects
 
     # ---- helpers on declarations
     def field_info(self, fid):
@@ -435,7 +454,7 @@ class Interp:
         self.member_types[(fi[0], fi[1])] = qt(self.ast.by_id[fi[2]])
         if self.is_ref_field(fi):
             return                                  # a reference member is not an object: nothing is accessed
-        if base_of(norm(obj)) == LOCAL:
+        if is_local(norm(obj)):
             return                                  # member of an automatic object of this activation: thread-local
         dc = self.decl_class(fi)
         init = init or self.under_construction(norm(obj))
@@ -478,14 +497,24 @@ class Interp:
             return self.lv(n["inner"][0], cx)
         if k == "UnaryOperator" and n.get("opcode") == "*":
             b = self.lv(n["inner"][0], cx)
-            if base_of(b.obj) == LOCAL and self.strip(n["inner"][0]).get("kind") != "CXXThisExpr":
+            if is_local(b.obj) and self.strip(n["inner"][0]).get("kind") != "CXXThisExpr":
                 return LV(b.holds if b.holds is not None else UNKNOWN)      # pointee of a pointer kept in a local object
             return b
         if k == "MemberExpr":
             fi = self.field_info(n.get("referencedMemberDecl"))
             b = self.lv(n["inner"][0], cx) if n.get("inner") else LV()
-            if n.get("isArrow") and base_of(b.obj) == LOCAL and n.get("inner") and self.strip(n["inner"][0]).get("kind") != "CXXThisExpr":
+            if n.get("isArrow") and is_local(b.obj) and n.get("inner") and self.strip(n["inner"][0]).get("kind") != "CXXThisExpr":
                 b = LV(b.holds if b.holds is not None else UNKNOWN)           # pointee of a pointer kept in a local object
+            if fi is not None and is_local(b.obj) and not self.embedded(fi[:2]):
+                # a reference / pointer member of an automatic object designates whatever it was bound to
+                bound = self.local_bindings.get((b.obj, fi[1]))
+                if bound is not None:
+                    return LV(bound.obj, None)
+                if base_of(b.obj)[1] == 0:
+                    # an anonymous automatic object (argument of the entry point, by-value copy): what it refers to is what
+                    # the copy source referred to, else the caller's own data (assumption A3)
+                    return LV(b.holds if b.holds is not None else LOCAL)
+                return LV(UNKNOWN)
             if fi is None:
                 return LV(b.obj, b.via)
             if self.tracked(fi):
@@ -504,9 +533,9 @@ class Interp:
             b = self.lv(n["inner"][0], cx)
             return LV(within(b.obj), b.via)
         if k == "CXXNewExpr":
-            return n.get("_lv", LV())
+            return self.call_result_lv(n, cx)
         if k in ("CXXConstructExpr", "CXXTemporaryObjectExpr"):
-            r = n.get("_res")
+            r = self.call_result_lv(n, cx, None)
             return r if r is not None else LV(LOCAL)
         if k == "CXXFunctionalCastExpr" and n.get("inner"):
             return self.lv(n["inner"][0], cx)
@@ -514,9 +543,15 @@ class Interp:
             return LV(UNKNOWN, None, (n, cx))
         return LV()
 
-    def call_result_lv(self, n, cx):
+    def set_res(self, n, cx, l):
+        n["_res"] = (cx.serial, l)
+
+    def call_result_lv(self, n, cx, default=False):
+        """what a call / new / construct expression designates — valid only if it was evaluated in THIS activation"""
         r = n.get("_res")
-        return r if r is not None else LV()
+        if r is not None and r[0] == cx.serial:
+            return r[1]
+        return LV() if default is False else default
 
     # ---- const-ness
     @staticmethod
@@ -561,11 +596,11 @@ class Interp:
         if k in ("MemberExpr", "DeclRefExpr") and mode == "w" and self.is_const_type(qt(n)):
             mode = "r"
         if k == "MemberExpr":
+            if n.get("inner"):
+                self.ev(n["inner"][0], cx, "n")
             l = self.lv(n, cx)
             if mode in ("r", "w") and l.via is not None:
                 self.record(l.via, mode, n, init=False)
-            if n.get("inner"):
-                self.ev(n["inner"][0], cx, "n")
             return
         if k == "DeclRefExpr":
             rid = n.get("referencedDecl", {}).get("id")
@@ -697,7 +732,7 @@ class Interp:
     def call(self, n, cx, mode):
         did, info, objexpr, args = self.callee_of(n)
         name = info.get("name") or "?"
-        n["_res"] = LV()
+        self.set_res(n, cx, LV())
         # ---- calling a local callable / std::function / function pointer
         if "callable" in info:
             c = info["callable"]
@@ -706,7 +741,7 @@ class Interp:
             for a in args:
                 self.ev(a, cx, "w")
             if l.lam is not None:
-                n["_res"] = self.run_lambda(l.lam[0], l.lam[1], args, n, cx) or LV()
+                self.set_res(n, cx, self.run_lambda(l.lam[0], l.lam[1], args, n, cx) or LV())
             else:
                 self.boundaries.add("call of a callable object `%s` (%s)" % (name, self.ast.at(n)))
             return
@@ -745,7 +780,7 @@ class Interp:
                 for ov in self.overriders(decl):
                     if ov is not d:
                         self.inline(ov, n, cx, objl, args, virtual_target=True)
-            n["_res"] = res or LV()
+            self.set_res(n, cx, res or LV())
             return
         if decl is not None and qn.startswith("tulz::") and decl.get("kind") in FUNC_KINDS and not decl.get("isImplicit") \
                 and decl.get("explicitlyDefaulted") is None and not has_body(decl) and self.fn_def(did) is None:
@@ -773,14 +808,14 @@ class Interp:
                 self.ev(a, cx, "r")
             else:
                 self.ev(a, cx, "w")
-            if objl is not None and base_of(objl.obj) == LOCAL and name in FORWARDING:
+            if objl is not None and is_local(objl.obj) and name in FORWARDING:
                 # a local container remembers what was put into it
                 l = self.lv(a, cx)
-                if l.obj not in (UNKNOWN, LOCAL):
+                if l.obj != UNKNOWN and not is_local(l.obj):
                     objl.holds = l.obj if objl.holds in (None, l.obj) else (objl.holds if within(objl.holds) == within(l.obj) else UNKNOWN)
             if first_obj is None:
                 l = self.lv(a, cx)
-                if l.obj not in (UNKNOWN, LOCAL):
+                if l.obj != UNKNOWN and not is_local(l.obj):
                     first_obj = l
         for a in args:
             sa = self.strip(a)
@@ -788,15 +823,15 @@ class Interp:
                 bind = LV(within(first_obj.obj), first_obj.via) if first_obj is not None else LV()
                 self.run_lambda(sa, cx, None, n, cx, default_param=bind)
         if name in ("move", "forward", "addressof", "as_const", "get") and args and info.get("member") is False:
-            n["_res"] = self.lv(args[0], cx)
-        elif objl is not None and base_of(objl.obj) == LOCAL and objl.holds is not None:
-            n["_res"] = LV(objl.holds, None)
-        elif objl is not None and base_of(objl.obj) == LOCAL and name in ("operator*", "operator->", "get"):
-            n["_res"] = LV(UNKNOWN)                   # pointee of a local smart pointer / iterator of unknown provenance
+            self.set_res(n, cx, self.lv(args[0], cx))
+        elif objl is not None and is_local(objl.obj) and objl.holds is not None:
+            self.set_res(n, cx, LV(objl.holds, None))
+        elif objl is not None and is_local(objl.obj) and name in ("operator*", "operator->", "get"):
+            self.set_res(n, cx, LV(UNKNOWN))   # pointee of a local smart pointer / iterator of unknown provenance
         elif objl is not None:
-            n["_res"] = LV(within(objl.obj), objl.via)
+            self.set_res(n, cx, LV(within(objl.obj), objl.via))
         elif first_obj is not None:
-            n["_res"] = LV(within(first_obj.obj), first_obj.via)
+            self.set_res(n, cx, LV(within(first_obj.obj), first_obj.via))
 
     def is_qualified_call(self, n):
         me = self.strip(n["inner"][0])
@@ -937,7 +972,7 @@ class Interp:
                 if "*" in pt:
                     env[p["id"]] = LV(l.obj, None, l.lam)
                 else:
-                    hold = l.holds if base_of(l.obj) == LOCAL else (within(l.obj) if l.obj != UNKNOWN else UNKNOWN)
+                    hold = l.holds if is_local(l.obj) else (within(l.obj) if l.obj != UNKNOWN else UNKNOWN)
                     env[p["id"]] = LV(LOCAL, None, l.lam, hold)
 
     def inline(self, d, call, cx, objl, args, virtual_target=False, ctor_obj=None):
@@ -997,6 +1032,8 @@ class Interp:
                         self.record((cx.this, fi), "w", c, init=True)
                     for e in c.get("inner", []):
                         self.ev_init(e, cx, member=(cx.this, fi) if fi is not None and self.tracked(fi) else None)
+                    if fi is not None and is_local(norm(cx.this)) and not self.embedded(fi[:2]) and c.get("inner"):
+                        self.local_bindings[(norm(cx.this), fi[1])] = self.lv(c["inner"][0], cx)
                 elif "baseInit" in c:
                     for e in c.get("inner", []):
                         self.ev_init(e, cx, base=True)
@@ -1031,7 +1068,7 @@ class Interp:
 
     def new_expr(self, n, cx):
         o = self.new_fresh()
-        n["_lv"] = LV(o, None)
+        self.set_res(n, cx, LV(o, None))
         for c in n.get("inner", []):
             if c.get("kind") in ("CXXConstructExpr", "CXXTemporaryObjectExpr"):
                 self.construct(c, cx, o)
@@ -1056,7 +1093,7 @@ class Interp:
             return
         ctor_id = None
         # clang json: CXXConstructExpr has no referenced decl id; find the constructor by class + parameter types
-        rec = self.find_record(t)
+        rec = self.find_record(t, cx)
         d = None
         if rec is not None and self.ast.qual(rec).startswith("tulz::"):
             ctype = n.get("ctorType", {}).get("qualType")
@@ -1073,21 +1110,30 @@ class Interp:
                 if not implicit:
                     self.notes.append("constructor %s of %s has no body in the AST (%s): arguments evaluated only" % (ctype, self.ast.qual(rec), self.ast.at(n)))
         if d is not None:
-            o = obj if obj is not None else LOCAL
+            if obj is None:
+                self.local_n += 1
+                obj = ("local", self.local_n)          # a temporary
+            o = obj
             self.inline(d, n, cx, None, args, ctor_obj=o)
-            n["_res"] = LV(o, None)
+            self.set_res(n, cx, LV(o, None))
             return
         for a in args:
             self.ev(a, cx, "w")
 
-    def find_record(self, t):
+    def find_record(self, t, cx=None):
         t = t.replace("const ", "").replace("class ", "").replace("struct ", "").strip().rstrip("&* ").strip()
         cands = [t, "tulz::" + t]
+        found = []
         for r in self.records():
             q = self.ast.qual(r)
             if q in cands or q.endswith("::" + t):
-                return r
-        return None
+                found.append((q, r))
+        if not found:
+            return None
+        if cx is not None and len(found) > 1:
+            here = self.ast.qual(cx.fn)
+            found.sort(key=lambda qr: -len(os.path.commonprefix([qr[0], here])))
+        return found[0][1]
 
     # ---- lambdas
     def lambda_parts(self, lam):
@@ -1201,6 +1247,10 @@ class Interp:
                             break
                     if any(re.search(r"\bObserver(_t)?\b", t) for t in chain):
                         res.append(COND_OBSERVER_INVALID)
+                if me.get("kind") == "MemberExpr" and me.get("name") == "empty" and me.get("inner"):
+                    b = self.strip(me["inner"][0])
+                    if b.get("kind") == "MemberExpr" and b.get("name") == "m_removedObservers":
+                        res.append(COND_REMOVED_DURING_NOTIFY)
         return res
 
     def exec_block(self, stmts, cx):
@@ -1209,6 +1259,15 @@ class Interp:
             for s in stmts:
                 self.exec_stmt(s, cx)
         finally:
+            # destructors of the automatic objects of this scope, in reverse order, before the guards of the scope go
+            mine = [c for c in self.cleanups if c[0] == depth]
+            self.cleanups = [c for c in self.cleanups if c[0] != depth]
+            for (_, dd, obj, dcx, site) in reversed(mine):
+                try:
+                    self.scope_depth = depth
+                    self.inline(dd, site, dcx, LV(obj), [])
+                except Terminated:
+                    pass
             self.guards = [g for g in self.guards if g["scope"] is None or g["scope"] < depth]
             self.scope_depth = depth - 1
 
@@ -1410,11 +1469,24 @@ class Interp:
             return
         if init.get("kind") in ("CXXConstructExpr", "CXXTemporaryObjectExpr") and not init.get("elidable"):
             init.pop("_res", None)
-            self.construct(init, cx, LOCAL)
-            if init.get("_res") is None and init.get("inner"):
+            init_res = None
+            self.local_n += 1
+            me = ("local", self.local_n)
+            self.construct(init, cx, me)
+            rec = self.find_record(desugared(init) or qt(init), cx)
+            if rec is not None:
+                for m in rec.get("inner", []):
+                    if m.get("kind") == "CXXDestructorDecl" and not m.get("isImplicit"):
+                        dd = self.fn_def(m.get("id"))
+                        if dd is not None and any(x.get("kind") == "CompoundStmt" for x in dd.get("inner", [])):
+                            self.cleanups.append((self.scope_depth, dd, me, cx, d))
+            init_res = self.call_result_lv(init, cx, None)
+            if init_res is not None and is_local(init_res.obj):
+                cx.env[d["id"]] = LV(me, None)
+            elif init_res is None and init.get("inner"):
                 # copy / conversion from another object: what the copy refers to stays reachable from the source
                 src = self.lv(init["inner"][0], cx)
-                hold = src.holds if base_of(src.obj) == LOCAL else (within(src.obj) if src.obj != UNKNOWN else UNKNOWN)
+                hold = src.holds if is_local(src.obj) else (within(src.obj) if src.obj != UNKNOWN else UNKNOWN)
                 cx.env[d["id"]] = LV(LOCAL, None, None, hold)
             else:
                 cx.env[d["id"]] = LV(LOCAL, None)
